@@ -31,7 +31,7 @@ func gcBatch(progs []*prog) ([]gcResult, error) {
 		return os.WriteFile(p, []byte(text), 0o644)
 	}
 	write("go.mod", "module gcbatch\n\ngo 1.25.0\n")
-	write("h/h.go", "package h\n\ntype T struct{}\n\nfunc (T) Panic(v int) { panic(v) }\n\n//go:noinline\nfunc Panic(v int) { panic(v) }\n\n//go:noinline\nfunc Print(x int) { println(\"O\", x) }\n\nfunc Nop() {}\n\n// not inlined: gc would let a callback recover() as if the deferred call were the callback itself\n//go:noinline\nfunc Call(f func()) { f() }\n\n//go:noinline\nfunc CallN(n int, f func()) {\n\tfor i := 0; i < n; i++ {\n\t\tf()\n\t}\n}\n")
+	write("h/h.go", gcHSource)
 	var m strings.Builder
 	m.WriteString("package main\n\nimport (\n\t\"os\"\n\t\"strconv\"\n\n\t\"gcbatch/h\"\n)\n\nvar _ h.T\n\nfunc main() {\n\tlo, _ := strconv.Atoi(os.Args[1])\n\thi, _ := strconv.Atoi(os.Args[2])\n\tfor n := lo; n < hi; n++ {\n\t\tprintln(\"#BEGIN\")\n\t\trun(n)\n\t}\n}\n\nfunc run(n int) {\n\tswitch n {\n")
 	for i, p := range progs {
@@ -172,3 +172,89 @@ func gcForm(res string) string {
 	}
 	return "panic:" + strings.Join(out, ",")
 }
+
+// gcHSource is package h for gc: the same functions and methods as the natives given to Scriggo
+// (without Stop and Fatal). Nothing is inlined: gc would otherwise let a callback recover() as if
+// the deferred native call were the callback itself.
+const gcHSource = `package h
+
+import (
+	"errors"
+	"strconv"
+)
+
+type T struct{}
+
+type I interface {
+	Panic(int)
+	PanicS(int)
+	PanicE(int)
+	PanicC(int)
+	Nop()
+	Call(func())
+	CallN(int, func())
+}
+
+type Cus struct{ N int }
+
+func (c Cus) Error() string { return "c" + strconv.Itoa(c.N) }
+
+//go:noinline
+func Err(v int) error { return errors.New("e" + strconv.Itoa(v)) }
+
+//go:noinline
+func Panic(v int) { panic(v) }
+
+//go:noinline
+func PanicS(v int) { panic("s" + strconv.Itoa(v)) }
+
+//go:noinline
+func PanicE(v int) { panic(Err(v)) }
+
+//go:noinline
+func PanicC(v int) { panic(Cus{v}) }
+
+//go:noinline
+func Print(x int) { println("O", x) }
+
+//go:noinline
+func Nop() {}
+
+//go:noinline
+func Call(f func()) { f() }
+
+//go:noinline
+func CallN(n int, f func()) {
+	for i := 0; i < n; i++ {
+		f()
+	}
+}
+
+//go:noinline
+func (T) Panic(v int) { panic(v) }
+
+//go:noinline
+func (T) PanicS(v int) { PanicS(v) }
+
+//go:noinline
+func (T) PanicE(v int) { PanicE(v) }
+
+//go:noinline
+func (T) PanicC(v int) { PanicC(v) }
+
+//go:noinline
+func (T) Print(x int) { println("O", x) }
+
+//go:noinline
+func (T) Nop() {}
+
+//go:noinline
+func (T) Call(f func()) { f() }
+
+//go:noinline
+func (T) CallN(n int, f func()) {
+	for i := 0; i < n; i++ {
+		f()
+	}
+}
+`
